@@ -28,6 +28,7 @@ struct ScriptedSink<'a> {
     calls: Vec<(usize, Option<Ans>)>,
     accepted: Vec<u8>,
     failed: bool,
+    vectored_calls: usize,
 }
 
 impl Write for ScriptedSink<'_> {
@@ -62,6 +63,12 @@ impl Write for ScriptedSink<'_> {
     fn flush(&mut self) -> std::io::Result<()> {
         Ok(())
     }
+    /// a natively gathering sink: the buffers count as one request; a short answer may end inside any of them
+    fn write_vectored(&mut self, bufs: &[std::io::IoSlice<'_>]) -> std::io::Result<usize> {
+        let all: Vec<u8> = bufs.iter().flat_map(|b| b.iter().copied()).collect();
+        self.vectored_calls += 1;
+        self.write(&all)
+    }
 }
 
 struct Run {
@@ -71,7 +78,7 @@ struct Run {
 }
 
 fn execute(mapping: &[u8], script: &[(usize, Ans)], limit: usize) -> Result<Run, String> {
-    let mut sink = ScriptedSink { script, limit, calls: Vec::new(), accepted: Vec::new(), failed: false };
+    let mut sink = ScriptedSink { script, limit, calls: Vec::new(), accepted: Vec::new(), failed: false, vectored_calls: 0 };
     let r = guarded(|| cur::ProguardCache::write(&cur::ProguardMapping::new(mapping), &mut sink).is_ok())?;
     // divergence while replaying a prefix is a hard machinery error
     for (i, _) in script {
@@ -159,7 +166,7 @@ fn check(lines: &[Line], mapping: &[u8], canonical: &[u8], script: &[(usize, Ans
 
 fn alternatives(len: usize) -> Vec<Ans> {
     let mut v = Vec::new();
-    for k in [1usize, 2, 3, len.saturating_sub(1)] {
+    for k in [1usize, 2, 3, len.saturating_sub(3), len.saturating_sub(2), len.saturating_sub(1)] {
         if k > 0 && k < len && !v.contains(&Ans::Short(k)) {
             v.push(Ans::Short(k));
         }
@@ -240,8 +247,27 @@ pub fn run(tier: Tier) -> i32 {
             }
         }
     }
+    // big subjects (class table beyond 4 KiB / 64 KiB): deviation bound 1 + the uniform sinks
+    let nsmall = subs.len();
+    let mut subs = subs;
+    for (l, _) in crate::families::huge_family(0).files.iter().take(if t { 4 } else { 2 }) {
+        subs.push(l.clone());
+    }
+    for si in nsmall..subs.len() {
+        work.push((si, None));
+        let mapping = print_file(&subs[si], Term::Lf);
+        if let Ok(r) = execute(&mapping, &[], 0) {
+            // every call of the default run as the single deviation point, in chunks
+            let mut i = 0;
+            while i < r.calls.len() {
+                work.push((si, Some(i)));
+                i += 1;
+            }
+        }
+    }
     let nsub = subs.len();
     let acc = par_run(&work, &budget, |&(si, first), acc, budget| {
+        let bound = if si >= nsmall { 1 } else { bound };
         let lines = &subs[si];
         let mapping = print_file(lines, Term::Lf);
         let canonical = match guarded(|| cur::write_cache(&mapping)) {
@@ -255,7 +281,10 @@ pub fn run(tier: Tier) -> i32 {
             None => {
                 // 0 deviations + the uniform sinks "at most k bytes per call"
                 check(lines, &mapping, &canonical, &[], 0, acc);
-                for k in 1..=16 {
+                for k in (1..=16).chain([37usize, 4095, 4096, 4097, 65535, 65536]) {
+                    if k > 16 && canonical.len() < k {
+                        continue;
+                    }
                     check(lines, &mapping, &canonical, &[], k, acc);
                     // and a uniform sink with one hard failure in the middle
                     let mid = canonical.len() / (2 * k.max(1));
@@ -276,7 +305,7 @@ pub fn run(tier: Tier) -> i32 {
         prop: "C15",
         tier,
         level: "fault_enumeration",
-        rule: format!("{} mappings (each padding site exercised / not exercised, 0 classes) x all sink scripts with <= {} deviations from 'accept everything' (per call: accept 1, 2, 3 or len-1 bytes; Ok(0); Interrupted; sticky hard error; hard error for that one call only), enumerated by run-record-branch to completion, plus uniform sinks accepting at most k = 1..16 bytes per call with and without a hard failure in the middle. Oracle: Ok => accepted bytes == canonical; hard failure or Ok(0) injected => Err; accepted bytes always a prefix of canonical; short writes / Interrupted alone never make the write fail. evaluations = scripts executed; distinct = distinct (result, accepted length, number of calls)", nsub, bound),
+        rule: format!("{} mappings (each padding site exercised / not exercised, 0 classes) x all sink scripts with <= {} deviations from 'accept everything' (per call: accept 1, 2, 3, len-3, len-2 or len-1 bytes; Ok(0); Interrupted; sticky hard error; hard error for that one call only), enumerated by run-record-branch to completion, plus {} big subjects (147 / 300 / 2340 / 2341 classes) with deviation bound 1; plus uniform sinks accepting at most k = 1..16, 37, 4095..4097, 65535, 65536 bytes per call with and without a hard failure in the middle. Oracle: Ok => accepted bytes == canonical; hard failure or Ok(0) injected => Err; accepted bytes always a prefix of canonical; short writes / Interrupted alone never make the write fail. The sink implements write_vectored natively (a gathered request counts as one call). evaluations = scripts executed; distinct = distinct (result, accepted length, number of calls)", nsmall, bound, nsub - nsmall),
         bounds: json!({"mappings": nsub, "deviation_bound": bound, "alternatives_per_call": "short(1,2,3,len-1), Ok(0), Interrupted, hard (sticky), hard (once)"}),
         assumptions: vec!["canonical = the bytes the same build writes into a Vec".into(), "Ok(0) on a non-empty buffer counts as a non-retryable failure (std::io::Write::write_all reports WriteZero)".into()],
         trusted_base: vec!["rustc/std".into(), "the scripted sink in pgmc/src/props/c15.rs".into()],
